@@ -22,8 +22,8 @@ MIN_DISTINCT = {"quick": 100, "thorough": 5000}
 
 WAIT = 5      # wall-clock bound on waiting for one response; its firing alone is never the verdict (the ledger is)
 OUTCOMES = ["value", "value", "ref", "exc", "unenc_bigint", "unenc_deep", "surrogate", "exc_unenc_args", "exc_custom",
-            "nested", "nested_exc", "bad_localref", "bad_label", "bad_arity", "bad_handler", "stopiter"]
-ANOMALOUS = {"unenc_bigint", "unenc_deep", "exc_unenc_args", "bad_localref", "bad_label", "bad_arity", "bad_handler",
+            "exc_unformattable", "nested", "nested_exc", "bad_localref", "bad_label", "bad_arity", "bad_handler", "stopiter"]
+ANOMALOUS = {"exc_unformattable", "unenc_bigint", "unenc_deep", "exc_unenc_args", "bad_localref", "bad_label", "bad_arity", "bad_handler",
              "surrogate", "nested", "nested_exc"}
 
 
@@ -55,6 +55,8 @@ def make_service(log):
                 return ("\udc80" + token, token)
             if outcome == "exc_unenc_args":
                 raise ValueError(10 ** (sys.get_int_max_str_digits() + 10), token)
+            if outcome == "exc_unformattable":
+                raise IndentationError((1, token), "b  abb")      # the interpreter's own traceback formatter raises on this
             if outcome == "exc_custom":
                 raise Weird(token)
             if outcome in ("nested", "nested_exc"):
@@ -79,7 +81,7 @@ def expected(outcome, token):
         return ("exc", StopIteration)
     if outcome == "surrogate":
         return ("value", ("\udc80" + token, token))
-    if outcome in ("unenc_bigint", "unenc_deep", "exc_unenc_args", "exc_custom", "bad_localref", "bad_label", "bad_arity",
+    if outcome in ("unenc_bigint", "unenc_deep", "exc_unenc_args", "exc_custom", "exc_unformattable", "bad_localref", "bad_label", "bad_arity",
                    "bad_handler"):
         return ("any-exc",)
     raise AssertionError(outcome)
